@@ -28,6 +28,8 @@ RULE = ('a case = a property package of 1-8 user-defined chemicals (custom CAS n
         'malformed lengths/nesting; writes through (..., IDs) and (..., ...) with every data form (per-phase vectors, length-1 vectors, 2-d data, '
         'wrong lengths) run through the full model of SparseArray column assignment (ModelEll.v). Compared there in addition: outcome of every configuration call, SplitIndexer values (nested '
         'structure exactly) and data after each write, the FINAL name table and compositions. '
+        'In 60% of the history cases the caller owns 1-2 float numpy arrays (coq/C10/ModelBuf.v): groups are defined (molar / by weight) from VIEWS of them, the caller then re-fills, rescales or zeroes '
+        'its array, and scalars are written to the group and read back on every indexer kind (name, (phase, name), mixed tuples, mass view); compared in addition: the caller view after each definition, every array after each caller write and at the end. '
         'non-trivial = at least 5 successful reads or writes; distinct = distinct case hash')
 ASSUMPTIONS = [
     'keys are built from str, tuple, list, Ellipsis and int (other unhashable containers such as set/dict/ndarray keys are not modelled)',
@@ -38,8 +40,9 @@ ASSUMPTIONS = [
     'group compositions have a non-zero sum; float rounding is not modelled (values compared to 1e-9 relative, structure exactly)',
     'writes through (..., IDs) use SparseArray column assignment (property C09): in the multi-package machine (Model.mat_set) modelled for scalars and for vectors of exactly the indexed length; in history cases (ModelEll.mat_set2) modelled for every data form (scalars, vectors of any length incl. one value per phase and length-1 vectors stripped to scalars, 2-d data with one row per phase) except 2-d data times a group composition',
     'data written through the ellipsis has at most as many entries as there are chemicals',
+    'compositions passed to define_group are lists or float64 numpy arrays / views of them with a positive sum; the caller writes into its arrays only between calls (single thread) and at most as many values as the array holds',
 ]
-TRUSTED = ['model coq/C10/Model.v, ModelCfg.v and ModelEll.v are hand-written from thermosteam/base/sparse.py (__setitem__, reduce_ndim), thermosteam/_chemicals.py, indexer.py, utils/cache.py, _phase.py; tie = correspondence check '
+TRUSTED = ['model coq/C10/Model.v, ModelCfg.v, ModelEll.v and ModelBuf.v (which arrays define_group creates and which it only reads) are hand-written from thermosteam/base/sparse.py (__setitem__, reduce_ndim), thermosteam/_chemicals.py, indexer.py, utils/cache.py, _phase.py; tie = correspondence check '
            '(values, error classes, data after writes, final cache contents and order)']
 
 _env = {}
@@ -1644,7 +1647,7 @@ def corpus_buf_reuse():
     """groups defined (molar and by weight) from views of ONE array the caller re-uses, rescales and zeroes afterwards; then
     scalars written to every group on every indexer kind, molar and mass views read back"""
     ops = []
-    for name, members, vals, wt, after in [('G1', ['A_', 'B_'], [1.0, 3.0], False, [3.0, 1.0, 4.0]), ('G2', ['C_', 'D_', 'B_'], [3.0, 1.0, 4.0], True, [24.0, 0.125]),
+    for name, members, vals, wt, after in [('G1', ['B_', 'C_'], [2.0, 0.5], False, [3.0, 1.0, 4.0]), ('G2', ['C_', 'D_', 'B_'], [3.0, 1.0, 4.0], True, [24.0, 0.125]),
                                            ('G3', ['D_', 'A_'], [5.0, 15.0], False, [0.0, 0.0, 0.0])]:
         ops += [['poke', 0, vals], ['bdef', name, members, 0, len(vals), wt], ['poke', 0, after]]
     for name in ['G1', 'G2', 'G3']:
